@@ -10,3 +10,8 @@ require (
 )
 
 replace storj.io/drpc => /repo
+
+require (
+	github.com/gogo/protobuf v1.3.2
+	github.com/spacemonkeygo/monkit/v3 v3.0.7
+)
